@@ -236,6 +236,29 @@ def run_case(ck, desc):
                     ck.violation("facade-uses-the-pseudocritical-point-given", {"T_pc": repr(tpc0), "Tr": Tr, "pr": pr_, "Z_direct": z_direct, "Z_behind_Bg": z_facade}, desc)
         ck.count("isotherms_at_pseudocritical_temperature_zero_F")
     T = Tr * (Tpc + 459.67) - 459.67
+    if int(Tr * 1e6) % 5 == 0:
+        # the facade asked with pressures in every form it accepts (array, list, generator, `.flat` of a 2-D
+        # grid, map() over text cells): one Z per requested pressure, in order - judged through Bg = Z x factor
+        from bluebonnet.fluids import Fluid
+        from bluebonnet.fluids.gas import b_factor_DAK
+
+        plist = [float(pr_ * ppc) for pr_ in desc["pr"][:6]]
+        fl_ = Fluid(T, 35.0, 0.65, 500.0)
+        for form, make in (("array", lambda: np.array(plist)), ("list", lambda: list(plist)), ("generator", lambda: (x for x in plist)), ("ndarray.flat", lambda: np.array(plist).reshape(2, 3).flat), ("map over text", lambda: map(float, [repr(x) for x in plist]))):
+            try:
+                bg_ = np.asarray(fl_.gas_FVF(make(), Tpc, ppc), dtype=float).reshape(-1)
+            except Exception as e:  # noqa: BLE001
+                ck.count(f"facade_pressure_form_not_accepted.{form}.{type(e).__name__}")
+                continue
+            ck.count(f"facade_pressure_forms_answered.{form}")
+            if bg_.size != len(plist):
+                ck.violation("facade-one-Z-per-pressure", {"pressures_as": form, "requested": len(plist), "returned": int(bg_.size)}, desc)
+                continue
+            for x_, b_ in zip(plist, bg_):
+                zd_ = float(z_factor_DAK(T, x_, Tpc, ppc))
+                zb_ = zd_ * float(b_) / float(b_factor_DAK(T, x_, Tpc, ppc))
+                if not ck.margin("Z behind the facade's Bg equals the direct call (every form of passing pressures)", abs(zb_ / zd_ - 1), 1e-12):
+                    ck.violation("facade-one-Z-per-pressure", {"pressures_as": form, "p": x_, "Z_direct": zd_, "Z_behind_Bg": zb_}, desc)
     zs = {}
     for pr in desc["pr"]:
         zs[pr] = float(z_factor_DAK(T, pr * ppc, Tpc, ppc))
